@@ -1,8 +1,147 @@
+(* C09/Properties.v — the property theorems only.  Each is closed by [exact] of a lemma from Proofs.v
+   and followed by Print Assumptions.
+
+   Reading guide.  [lrun v sst0 evs] runs one session of the AAA component (variant v) from a fresh
+   process over ANY list of notifications evs: lifecycle-active, restored, released, bucket ticks with any
+   stats snapshot and any Accounting-Response outcome, process restarts, orphan prunes.  Its trace pairs every
+   notification with the calls made to the auth provider (Start / Interim c ok / Stop c).
+   [repaired] = the code with the three fixes of /verif/fixes/C09_*.patch; [defective] = the code as found.
+   Hypotheses:  lrun_wraps = false  — the uint64 cumulative never wrapped ("true total < 2^64");
+                no_prune = true     — the 5-minute orphan deadline never passed for the session.       *)
 From OV Require Import Common.Base C09.Model C09.Proofs.
 Open Scope N_scope.
-Definition rd (i a : N) : snap := Some [(i, C4 a a a a)].
+
+(* Conformance to the bracket ledger (Model.mon_step), for all histories:
+   first Active -> exactly one Start; Active/Restored again -> nothing; Restored never a Start;
+   Released with accounting open -> exactly one Stop, whose counters are >= the last acknowledged report;
+   Released otherwise -> nothing; a tick of an announced session -> exactly one Interim with counters >= the
+   last acknowledged report (acknowledged = the send succeeded), nothing for a session not (yet) announced;
+   restart keeps open accounting exactly when a checkpoint was written (Start or acknowledged Interim). *)
+Theorem C09_bracket :
+  forall evs, lrun_wraps repaired sst0 evs = false ->
+  accepted (snd (lrun repaired sst0 evs)) = true.
+Proof. exact conforms. Qed.
+Print Assumptions C09_bracket.
+
+(* at most one Start per bracket, however often Active / Restored are repeated and across restarts *)
+Theorem C09_start_once :
+  forall evs, lrun_wraps repaired sst0 evs = false -> no_prune evs = true ->
+  bracketed false (outputs (snd (lrun repaired sst0 evs))) = true.
+Proof. exact start_once. Qed.
+Print Assumptions C09_start_once.
+
+(* Stops only answer Released, at most one each, and never two without a new announcement in between *)
+Theorem C09_stop_once :
+  forall evs, lrun_wraps repaired sst0 evs = false ->
+  stops_ok false (snd (lrun repaired sst0 evs)) = true.
+Proof. exact stop_once. Qed.
+Print Assumptions C09_stop_once.
+
+(* usage counters never go backwards: every Interim and the final Stop carry values pointwise >= the last
+   acknowledged Interim of the bracket — for every sequence of readings (resets to any smaller value, missing
+   readings, unavailable snapshots, renumbered interfaces) and every pattern of send failures and restarts *)
+Theorem C09_monotone :
+  forall evs, lrun_wraps repaired sst0 evs = false -> no_prune evs = true ->
+  nondecreasing c4z (outputs (snd (lrun repaired sst0 evs))) = true.
+Proof. exact monotone. Qed.
+Print Assumptions C09_monotone.
+
+(* one report, any session state: the cumulative returned is never below the last reported values *)
+Theorem C09_report_not_below_last :
+  forall e sn, report_wraps repaired e sn = false -> c4_le (last e) (snd (report repaired e sn)).
+Proof. exact report_ge. Qed.
+Print Assumptions C09_report_not_below_last.
+
+(* repeated notifications are silent, from ANY component state s *)
+Theorem C09_repeated_announce_silent :
+  forall s ev i j, (ev = EActive i \/ ev = ERestored i) ->
+  let s' := fst (lstep repaired s ev) in
+  snd (lstep repaired s' (EActive j)) = [] /\ snd (lstep repaired s' (ERestored j)) = [].
+Proof. exact after_announce_silent. Qed.
+Print Assumptions C09_repeated_announce_silent.
+
+Theorem C09_repeated_release_silent :
+  forall s sn sn',
+  let s' := fst (lstep repaired s (EReleased sn)) in
+  s' = sst0 /\ snd (lstep repaired s' (EReleased sn')) = [].
+Proof. exact after_release_silent. Qed.
+Print Assumptions C09_repeated_release_silent.
+
+(* restoring never emits a Start — every variant, every state *)
+Theorem C09_restore_never_starts :
+  forall v s i, snd (lstep v s (ERestored i)) = [].
+Proof. exact restore_never_starts. Qed.
+Print Assumptions C09_restore_never_starts.
+
+(* the component is the product of the per-session machines: after any component-level history the state
+   of session j is the per-session run over the notifications addressed to j *)
+Theorem C09_component_is_product :
+  forall v bk evs g j s, nth_error g j = Some s ->
+  nth_error (grun v bk g evs) j = Some (fst (lrun v s (local_events bk j evs))).
+Proof. exact component_is_product. Qed.
+Print Assumptions C09_component_is_product.
+
+(* ---------------- non-vacuity ---------------- *)
+Definition rd (i a : N) : snap := Some [(i, C4 a (a / 2) (a / 100) (a / 200))].
+(* Start; 400; 1000; counter reset to 5; failed send; restart + renumbering; missing reading; release *)
+Definition ex_hist : list sev :=
+  [EActive 5; EActive 5; ETick (rd 5 400) true; ETick (rd 5 1000) true; ETick (rd 5 5) true;
+   ETick (rd 5 20) false; ERestart; EPrune false; ERestored 6; ETick (rd 5 7) true; ETick (rd 6 3) true;
+   EReleased (rd 6 9); EReleased (rd 6 9)].
+Example C09_nonvacuous :
+  lrun_wraps repaired sst0 ex_hist = false /\ no_prune ex_hist = true /\
+  map rxb (flat_map (fun o => match o with Interim c _ => [c] | Stop c => [c] | Start => [] end)
+                    (outputs (snd (lrun repaired sst0 ex_hist)))) = [400; 1000; 1005; 1020; 1005; 1008; 1014] /\
+  length (filter (fun o => match o with Start => true | _ => false end)
+                 (outputs (snd (lrun repaired sst0 ex_hist)))) = 1%nat /\
+  length (filter (fun o => match o with Stop _ => true | _ => false end)
+                 (outputs (snd (lrun repaired sst0 ex_hist)))) = 1%nat.
+Proof. vm_compute. repeat split. Qed.
+Print Assumptions C09_nonvacuous.
+
+(* the two hypotheses are needed: with a u64 wrap, or a restore after the orphan prune, even the repaired
+   component reports a decrease *)
+Example C09_wrap_hypothesis_needed :
+  exists evs, no_prune evs = true /\ lrun_wraps repaired sst0 evs = true /\
+              nondecreasing c4z (outputs (snd (lrun repaired sst0 evs))) = false.
+Proof.
+  exists [EActive 5; ETick (Some [(5, C4 (W - 1) 0 0 0)]) true; ETick (Some [(5, C4 7 0 0 0)]) true].
+  vm_compute. auto.
+Qed.
+Print Assumptions C09_wrap_hypothesis_needed.
+
+Example C09_prune_hypothesis_needed :
+  exists evs, lrun_wraps repaired sst0 evs = false /\ no_prune evs = false /\
+              nondecreasing c4z (outputs (snd (lrun repaired sst0 evs))) = false.
+Proof.
+  exists [EActive 5; ETick (rd 5 1000) true; ERestart; EPrune true; ERestored 5; ETick (rd 5 5) true].
+  vm_compute. auto.
+Qed.
+Print Assumptions C09_prune_hypothesis_needed.
+
+(* ---------------- the code as found violates the property ---------------- *)
+(* readings 1000 then 5 are reported as 1000 then 5 *)
 Theorem C09_monotone_refuted :
   exists evs, lrun_wraps defective sst0 evs = false /\ no_prune evs = true /\
               nondecreasing c4z (outputs (snd (lrun defective sst0 evs))) = false.
 Proof. exists [EActive 5; ETick (rd 5 1000) true; ETick (rd 5 5) true]. vm_compute. auto. Qed.
 Print Assumptions C09_monotone_refuted.
+
+(* a repeated Released sends a second Stop; a Released with nothing open sends a Stop *)
+Theorem C09_stop_once_refuted :
+  exists evs, lrun_wraps defective sst0 evs = false /\
+              stops_ok false (snd (lrun defective sst0 evs)) = false.
+Proof. exists [EActive 5; EReleased None; EReleased None]. vm_compute. auto. Qed.
+Print Assumptions C09_stop_once_refuted.
+
+(* after a restart, Active before Restored sends a second Start *)
+Theorem C09_start_once_refuted :
+  exists evs, lrun_wraps defective sst0 evs = false /\ no_prune evs = true /\
+              bracketed false (outputs (snd (lrun defective sst0 evs))) = false.
+Proof. exists [EActive 5; ERestart; EActive 5]. vm_compute. auto. Qed.
+Print Assumptions C09_start_once_refuted.
+
+Theorem C09_bracket_refuted :
+  exists evs, lrun_wraps defective sst0 evs = false /\ accepted (snd (lrun defective sst0 evs)) = false.
+Proof. exists [EReleased None]. vm_compute. auto. Qed.
+Print Assumptions C09_bracket_refuted.
